@@ -17,23 +17,23 @@ def int_to_str(n):
     return z3.If(n >= 0, z3.IntToStr(n), z3.Concat(z3.StringVal('-'), z3.IntToStr(-n)))
 
 
-_digits = z3.Plus(z3.Range('0', '9'))
-
-
 def is_int_literal(s):
-    """the strings int() accepts in the shapes the repo produces: optional sign, digits (A: no whitespace/underscore forms)"""
-    return z3.InRe(s, z3.Concat(z3.Option(z3.Union(z3.Re('-'), z3.Re('+'))), _digits))
+    """the strings int() accepts in the shapes the repo produces: optional sign followed by one or more ASCII digits
+    (str.to_int is -1 exactly on strings that are not such digit strings).  A: whitespace / underscore forms are not produced."""
+    rest = z3.SubString(s, 1, z3.Length(s) - 1)
+    signed = z3.Or(z3.PrefixOf(z3.StringVal('-'), s), z3.PrefixOf(z3.StringVal('+'), s))
+    return z3.Or(z3.StrToInt(s) >= 0, z3.And(signed, z3.StrToInt(rest) >= 0))
 
 
 def str_to_int(s):
-    neg = z3.PrefixOf(z3.StringVal('-'), s)
-    pos = z3.PrefixOf(z3.StringVal('+'), s)
-    body = z3.If(z3.Or(neg, pos), z3.SubString(s, 1, z3.Length(s) - 1), s)
-    return z3.If(neg, -z3.StrToInt(body), z3.StrToInt(body))
+    rest = z3.SubString(s, 1, z3.Length(s) - 1)
+    return z3.If(z3.StrToInt(s) >= 0, z3.StrToInt(s),
+                 z3.If(z3.PrefixOf(z3.StringVal('-'), s), -z3.StrToInt(rest), z3.StrToInt(rest)))
 
 
 _AT = {}
 AT_AXIOMS = []
+AT_AXIOM_NAMES = []      # per axiom: the function whose occurrence makes it relevant
 
 
 def nth(seq_term, i):
@@ -46,6 +46,7 @@ def nth(seq_term, i):
         s, j = z3.Const('ats_%d' % len(_AT), so), z3.Int('atj_%d' % len(_AT))
         _AT[key] = f
         AT_AXIOMS.append(z3.ForAll([s, j], f(s, j) == s[j], patterns=[f(s, j)]))
+        AT_AXIOM_NAMES.append(f.name())
     if not z3.is_expr(i):
         i = z3.IntVal(i)
     return _AT[key](seq_term, i)
@@ -63,9 +64,12 @@ def mem(seq_term, x):
         f = z3.Function('mem_%d' % len(_MEM), so, so.basis(), z3.BoolSort())
         s, v, i = z3.Const('mems_%d' % len(_MEM), so), z3.Const('memv_%d' % len(_MEM), so.basis()), z3.Int('memi_%d' % len(_MEM))
         _MEM[key] = f
+        nth(s, i)
         AT_AXIOMS.append(z3.ForAll([s, v], f(s, v) == z3.Exists([i], z3.And(0 <= i, i < z3.Length(s), nth(s, i) == v)), patterns=[f(s, v)]))
+        AT_AXIOM_NAMES.append(f.name())
         # a position is a witness of membership
         AT_AXIOMS.append(z3.ForAll([s, i], z3.Implies(z3.And(0 <= i, i < z3.Length(s)), f(s, nth(s, i))), patterns=[nth(s, i)]))
+        AT_AXIOM_NAMES.append(f.name())
     return _MEM[key](seq_term, x)
 
 
